@@ -88,6 +88,8 @@ type Worker struct {
 	expectPanic bool
 	lastClock   *Term
 	fixedPos    int
+	clockReadings []value
+	lastTimerDur  value
 
 	// globals (persist across paths; stores are undo-logged)
 	globals   map[*ssa.Global]*value
@@ -225,6 +227,8 @@ func (w *Worker) runPath(prefix []Decision) {
 	w.expectPanic = false
 	w.lastClock = nil
 	w.fixedPos = 0
+	w.clockReadings = nil
+	w.lastTimerDur = nil
 	w.tt = NewTermTable()
 	w.solver.Reset()
 	w.sched.reset(w)
